@@ -254,3 +254,63 @@ Proof.
     destruct (get (o_ctx (snd f)) e) as [[st bc]|]; [|reflexivity]. rewrite (Hv f Hfin). reflexivity.
   - exfalso. exact (oracle_import_total_partial_reachable_lemma true e e s Hinv Hctx E).
 Qed.
+
+(** ** after PrepForZeroHeightGenesis: every running feed is moved to the other queue; the state is again a
+    reachable-looking one, so the theorems apply to it (with the service contexts as they are after the service
+    module's own preparation: all paused, which is what makes the pair importable) *)
+Lemma oins_total_sorted1 {V} k (v : V) m : sortedb lt1 m = true -> sortedb lt1 (oins lt1 k v m) = true.
+Proof.
+  intros Hs. apply (sortedb_sorted lt1 lt1_trans) in Hs.
+  assert (Hgen : forall m0, sorted lt1 m0 -> sorted lt1 (oins lt1 k v m0)).
+  { clear. unfold sorted. induction m0 as [|[k' v'] m0 IH]; simpl; intros Hs; [constructor; constructor|].
+    inversion Hs as [|? ? Hs' Hall]; subst. destruct (eq_dec k k') as [->|Hne]; [constructor; assumption|].
+    destruct (lt1 k k') eqn:E.
+    - constructor; [exact Hs|]. constructor; [exact E|]. rewrite Forall_forall in *. intros x Hx.
+      specialize (Hall x Hx). unfold klt, lt1 in *. simpl in *. lia.
+    - constructor; [apply IH; exact Hs'|]. rewrite Forall_forall in *. intros x Hx.
+      apply In_oins_inv in Hx. destruct Hx as [->|Hx]; [unfold klt, lt1 in *; simpl in *; lia|apply Hall; exact Hx]. }
+  specialize (Hgen m Hs). clear Hs.
+  unfold sorted in Hgen. induction (oins lt1 k v m) as [|a l IH]; [reflexivity|].
+  inversion Hgen as [|? ? Hs' Hall]; subst. destruct l as [|b l']; [reflexivity|].
+  simpl. inversion Hall as [|? ? Hab _]; subst. unfold klt in Hab. rewrite Hab. simpl. apply IH. exact Hs'.
+Qed.
+
+Lemma get_In_has {V} (k : Z) (v : V) m : In (k, v) m -> match get k m with Some _ => true | None => false end = true.
+Proof.
+  induction m as [|[k0 v0] m IH]; simpl; intros Hin; [contradiction|].
+  destruct (eq_dec k k0); [reflexivity|]. destruct Hin as [Heq|Hin]; [congruence|apply IH; exact Hin].
+Qed.
+
+Lemma has_fold_oins_unit (l : list (Z * unit)) : forall acc k,
+  has k (fold_left (fun m x => oins lt1 (fst x) tt m) l acc) = has k acc || has k l.
+Proof.
+  induction l as [|[k0 []] l IH]; intros acc k; cbn [fold_left fst]; [unfold has at 3; simpl; rewrite orb_false_r; reflexivity|].
+  rewrite IH. unfold has. cbn [get]. destruct (eq_dec k k0) as [->|Hne].
+  - rewrite get_oins_same. rewrite orb_true_r. reflexivity.
+  - rewrite get_oins_other by exact Hne. reflexivity.
+Qed.
+
+Lemma sortedb_fold_oins_unit (l : list (Z * unit)) : forall acc,
+  sortedb lt1 acc = true -> sortedb lt1 (fold_left (fun m x => oins lt1 (fst x) tt m) l acc) = true.
+Proof. induction l as [|x l IH]; intros acc Hs; simpl; [exact Hs|]. apply IH. apply oins_total_sorted1. exact Hs. Qed.
+
+Lemma oracle_prep_inv_lemma s : invb s = true -> invb (prep s) = true.
+Proof.
+  intros Hinv. unfold invb in *. split_andb Hinv.
+  rename Hinv into H1, Hi6 into H2, Hi5 into H3, Hi4 into H4, Hi3 into H5, Hi2 into H6, Hi1 into H7, Hi0 into H8, Hi into H9.
+  unfold prep. cbn [feeds ctx_idx vals running paused].
+  rewrite H1, H2, H3, H4, H5. cbn [andb sortedb].
+  rewrite (sortedb_fold_oins_unit (running s) (paused s) H7). cbn [andb].
+  apply andb_true_iff. split.
+  - rewrite forallb_forall in *. intros f Hf. specialize (H8 f Hf). unfold has at 1. cbn [get].
+    rewrite has_fold_oins_unit. destruct (has (fst f) (running s)), (has (fst f) (paused s)); simpl in *; congruence.
+  - rewrite forallb_forall in *. intros x Hx. cbn [app] in Hx.
+    assert (Hk : has (fst x) (fold_left (fun m y => oins lt1 (fst y) tt m) (running s) (paused s)) = true).
+    { unfold has. destruct x as [k u]. cbn [fst]. apply (get_In_has k u). exact Hx. }
+    rewrite has_fold_oins_unit in Hk. apply orb_true_iff in Hk.
+    destruct Hk as [Hk|Hk]; unfold has in Hk.
+    + destruct (get (fst x) (paused s)) as [u|] eqn:E; [|discriminate]. apply get_In in E.
+      apply (H9 (fst x, u)). apply in_or_app. right. exact E.
+    + destruct (get (fst x) (running s)) as [u|] eqn:E; [|discriminate]. apply get_In in E.
+      apply (H9 (fst x, u)). apply in_or_app. left. exact E.
+Qed.
